@@ -9,6 +9,7 @@ import (
 	"github.com/krotik/ecal/parser"
 	"github.com/krotik/ecal/scope"
 	"github.com/krotik/ecal/util"
+	"simrt"
 )
 
 // goFunc is a Go function callable from ECAL (probe / bracket functions of the
@@ -64,4 +65,19 @@ func newGlobalScope() parser.Scope { return scope.NewScope(scope.GlobalScope) }
 func num(x interface{}) (float64, bool) {
 	f, ok := x.(float64)
 	return f, ok
+}
+
+// hbFlag is a flag shared between harness tasks that also carries the
+// happens-before edge a real program would get from whatever it uses to learn that
+// another thread is done (set = release, get = acquire).
+type hbFlag struct{ v bool }
+
+func (f *hbFlag) set() {
+	f.v = true
+	simrt.AtomicSync(f, true, true)
+}
+
+func (f *hbFlag) get() bool {
+	simrt.AtomicSync(f, true, false)
+	return f.v
 }
